@@ -31,6 +31,12 @@ LEVEL_TEXT = ("Coq proofs about the executable model meek_model (textbook rules 
               "meek_complete_on_patterns_bounded_5_every_dag lifts it to EVERY well-formed DAG on 0..n-1 with its own edge "
               "lists in any order (coverage of the enumeration + graph extensionality of pattern_of, meek_model and "
               "essential_graph, C08/Cover.v, Ext.v, ExtEss.v). "
+              "ALL SIZES (chordal graphs via perfect elimination orderings, C08/Chordal.v, ChordalOrient.v, ChordalComplete.v, Topo.v) — "
+              "dirac_two_simplicial; peo_with_any_vertex_last; chordal_has_vfree_extension and its converse "
+              "vfree_extension_implies_chordal; chordal_every_edge_orientable (every edge u - v of a chordal undirected graph is "
+              "u -> v in some v-structure-free consistent extension); reverse_topological_order_exists; "
+              "meek_complete_on_vfree_dags_all_sizes_unconditional: for EVERY well-formed acyclic DAG without v-structures (any "
+              "size) the closure of its pattern equals the brute-force essential graph (no edge is compelled). "
               "extension_oracle_sound: has_extension p = true gives a Spec.consistent_ext (reflection of the boolean oracle); "
               "fully_oriented_is_its_extension. REFUTED for the rules as coded before the repair — meek_sound_code_refuted / _spec (rule 1 with ancestors orients an "
               "edge against a consistent extension in the sense of Spec.consistent_ext). "
@@ -40,9 +46,11 @@ LEVEL_NOTE = ("the tie is differential (extracted model vs. implementation on ge
               "neighbors is modelled as V-order x V-order, the theorems hold for every order; "
               "measured kernel cost of n=5: naive check about 0.4 s per DAG (3 CPU-hours), table-driven with one v-structure "
               "signature per DAG 4.3 CPU-min in total; is_ext / has_extension are reflected to Spec.consistent_ext (soundness direction, C08/Reflect.v); essential_graph "
-              "stays a boolean oracle; unbounded completeness (Meek 1995 Thm 3) not attempted: the converse inclusion needs the "
-              "reversibility of every edge left undirected, i.e. chordality of the chain components and the orientation lemma that "
-              "C09/Component.v takes as the hypothesis rounds_extendable")
+              "stays a boolean oracle; unbounded completeness (Meek 1995 Thm 3) is proved only for DAGs without v-structures; for DAGs WITH v-structures "
+              "it is still missing: (a) the undirected components of the closure of a pattern are chordal, (b) an orientation of "
+              "those components (chordal_every_edge_orientable applies per component) combines with the directed part into a "
+              "consistent extension (needs: a -> b, b - c in the closure implies a -> c; true for closures of patterns, false with "
+              "background knowledge), neither formalised")
 TECHNIQUE = "Coq proof (invariants, unbounded; completeness bounded n<=5 by vm_compute) + extracted-model correspondence"
 
 
